@@ -1,1 +1,496 @@
 import LenaModel.Model.C18
+/-! # C18 — lemmas: the generator machine refines the reference semantics
+
+`rem…` is the flow a chain will still produce ("remaining flow"); `nextUppers_spec` is the one-step
+simulation lemma, `drive_spec` its iteration; `Track c T` is the invariant that ties the temporary file of
+cache `c` to the flow `T` that enters it. -/
+
+namespace Lena.C18
+
+/-! ## File system -/
+
+@[simp] theorem FS.set_apply (fs : FS) (c : Nat) (f : CFiles) (d : Nat) :
+    (fs.set c f) d = if d = c then f else fs d := rfl
+
+@[simp] theorem FS.openTmpW_apply (fs : FS) (c d : Nat) :
+    (fs.openTmpW c) d = if d = c then { fs c with tmp := some [] } else fs d := rfl
+
+@[simp] theorem FS.writeTmp_apply (fs : FS) (c : Nat) (v : Val) (d : Nat) :
+    (fs.writeTmp c v) d = if d = c then { fs c with tmp := (fs c).tmp.map (· ++ [v]) } else fs d := rfl
+
+@[simp] theorem FS.removeTmp_apply (fs : FS) (c d : Nat) :
+    (fs.removeTmp c) d = if d = c then { fs c with tmp := none } else fs d := rfl
+
+theorem FS.replaceTmp_some {fs : FS} {c : Nat} {xs : List Val} (h : (fs c).tmp = some xs) :
+    fs.replaceTmp c = some (fs.set c ⟨some xs, none⟩) := by
+  simp [FS.replaceTmp, h]
+
+theorem FS.replaceTmp_none {fs : FS} {c : Nat} (h : (fs c).tmp = none) : fs.replaceTmp c = none := by
+  simp [FS.replaceTmp, h]
+
+/-! ## Remaining flows -/
+
+/-- the raise point of a map element, counted from the values it has already received -/
+def shiftRaise (calls : Nat) : Option Nat → Option Nat
+  | some q => if calls ≤ q then some (q - calls) else none
+  | none => none
+
+/-- what the bottom generator will still produce -/
+def remB (fs : FS) : Bottom → Flow
+  | .src _ _ _ true => ⟨[], none⟩
+  | .src vals i r false =>
+    match r with
+    | some q => if i ≤ q ∧ q ≤ vals.length then ⟨(vals.drop i).take (q - i), some .srcBoom⟩ else ⟨vals.drop i, none⟩
+    | none => ⟨vals.drop i, none⟩
+  | .load c .fresh _ => storedFlow fs c
+  | .load _ .active rest => ⟨rest, none⟩
+  | .load _ .dead _ => ⟨[], none⟩
+
+/-- what a generator will still produce when `g` is what its upstream will still produce -/
+def remU : Upper → Flow → Flow
+  | .map _ _ _ _ true, _ => ⟨[], none⟩
+  | .map _ a calls r false, g => mapFlow a (shiftRaise calls r) g
+  | .dump _ .dead, _ => ⟨[], none⟩
+  | .dump _ _, g => g
+
+def remUs (us : List Upper) (g : Flow) : Flow := us.foldr remU g
+
+@[simp] theorem remUs_nil (g : Flow) : remUs [] g = g := rfl
+@[simp] theorem remUs_cons (u : Upper) (us : List Upper) (g : Flow) : remUs (u :: us) g = remU u (remUs us g) := rfl
+
+/-- the remaining flow of a chain -/
+def rem (fs : FS) (ch : Chain) : Flow := remUs ch.uppers (remB fs ch.bottom)
+
+/-- cache ids of the dump generators of a chain -/
+def dumpIds : List Upper → List Nat
+  | [] => []
+  | .map _ _ _ _ _ :: us => dumpIds us
+  | .dump c _ :: us => c :: dumpIds us
+
+/-- no generator is dead, every cache is dumped by at most one generator, and the temporary file of every
+suspended dump generator is there -/
+def UsOk (fs : FS) : List Upper → Prop
+  | [] => True
+  | .map _ _ _ _ dead :: us => dead = false ∧ UsOk fs us
+  | .dump c st :: us => st ≠ .dead ∧ c ∉ dumpIds us ∧ (st = .active → (fs c).tmp.isSome) ∧ UsOk fs us
+
+def BotOk : Bottom → Prop
+  | .src vals i _ dead => dead = false ∧ i ≤ vals.length
+  | .load _ st _ => st ≠ .dead
+
+/-- the temporary file of cache `c` and what is still to come add up to the flow `T` -/
+def Track (c : Nat) (T : List Val) (fs : FS) (g : Flow) : List Upper → Prop
+  | [] => True
+  | .map _ _ _ _ _ :: us => Track c T fs g us
+  | .dump c' st :: us =>
+    if c' = c then
+      match st with
+      | .fresh => (remUs us g).vals = T
+      | .active => ∃ pre, (fs c).tmp = some pre ∧ pre ++ (remUs us g).vals = T
+      | .dead => True
+    else Track c T fs g us
+
+theorem remB_congr {fs1 fs2 : FS} (h : ∀ c, (fs1 c).final = (fs2 c).final) (b : Bottom) :
+    remB fs1 b = remB fs2 b := by
+  cases b with
+  | src vals i r dead => cases dead <;> rfl
+  | load c st rest => cases st <;> simp [remB, storedFlow, h]
+
+theorem UsOk_congr {fs1 fs2 : FS} : ∀ (us : List Upper), (∀ c, c ∈ dumpIds us → (fs1 c).tmp = (fs2 c).tmp) →
+    UsOk fs1 us → UsOk fs2 us
+  | [], _, _ => trivial
+  | .map _ _ _ _ _ :: us, h, ok => ⟨ok.1, UsOk_congr us (fun c hc => h c (by simpa [dumpIds] using hc)) ok.2⟩
+  | .dump c st :: us, h, ok =>
+    ⟨ok.1, ok.2.1, (by rw [← h c (by simp [dumpIds])]; exact ok.2.2.1),
+      UsOk_congr us (fun d hd => h d (by simp [dumpIds, hd])) ok.2.2.2⟩
+
+theorem Track_congr {fs1 fs2 : FS} {c : Nat} {T : List Val} {g : Flow} :
+    ∀ (us : List Upper), (c ∈ dumpIds us → (fs1 c).tmp = (fs2 c).tmp) → Track c T fs1 g us → Track c T fs2 g us
+  | [], _, _ => trivial
+  | .map _ _ _ _ _ :: us, h, t => Track_congr (c := c) us (fun hc => h (by simpa [dumpIds] using hc)) (by simpa [Track] using t)
+  | .dump c' st :: us, h, t => by
+    unfold Track at t ⊢
+    by_cases hc : c' = c
+    · simp only [hc, if_true] at t ⊢
+      cases st with
+      | fresh => exact t
+      | active => rw [← h (by simp [dumpIds, hc])]; exact t
+      | dead => trivial
+    · simp only [hc, if_false] at t ⊢
+      exact Track_congr us (fun hd => h (by simp [dumpIds, hd])) t
+
+theorem nextBottom_spec (fs : FS) (b : Bottom) (ok : BotOk b) :
+    ∀ res evs b', nextBottom fs b = (res, evs, b') →
+      (∀ v rest, (remB fs b).vals = v :: rest →
+          res = .item v ∧ BotOk b' ∧ (∀ fs', remB fs' b' = ⟨rest, (remB fs b).exc⟩)) ∧
+      ((remB fs b).vals = [] → (remB fs b).exc = none → res = .done) ∧
+      (∀ e, (remB fs b).vals = [] → (remB fs b).exc = some e → res = .raised e) := by
+  intro res evs b' h
+  cases b with
+  | src vals i r dead =>
+    obtain ⟨hd, hi⟩ := ok
+    subst hd
+    unfold nextBottom at h
+    by_cases hr : r = some i
+    · subst hr
+      simp only [if_true] at h
+      obtain ⟨rfl, rfl, rfl⟩ := h
+      simp [remB, hi]
+    · simp only [hr, if_false] at h
+      cases hv : vals[i]? with
+      | some v =>
+        rw [hv] at h
+        obtain ⟨rfl, rfl, rfl⟩ := h
+        have hlt : i < vals.length := by
+          rcases List.getElem?_eq_some_iff.mp hv with ⟨hlt, _⟩; exact hlt
+        have hvi : vals[i] = v := by
+          rcases List.getElem?_eq_some_iff.mp hv with ⟨_, e⟩; exact e
+        have hdrop : vals.drop i = v :: vals.drop (i + 1) := by
+          rw [List.drop_eq_getElem_cons hlt, hvi]
+        cases r with
+        | none =>
+          simp [remB, hdrop, BotOk]
+          omega
+        | some q =>
+          have hqi : q ≠ i := fun e => hr (by rw [e])
+          by_cases hq : i ≤ q ∧ q ≤ vals.length
+          · have h1 : i + 1 ≤ q ∧ q ≤ vals.length := by omega
+            have h2 : q - i = (q - (i + 1)) + 1 := by omega
+            simp [remB, hq, h1, hdrop, BotOk, h2, List.take_succ_cons]
+            omega
+          · have h1 : ¬ (i + 1 ≤ q ∧ q ≤ vals.length) := by omega
+            simp [remB, hq, h1, hdrop, BotOk]
+            omega
+      | none =>
+        rw [hv] at h
+        obtain ⟨rfl, rfl, rfl⟩ := h
+        have hge : vals.length ≤ i := List.getElem?_eq_none_iff.mp hv
+        have hdrop : vals.drop i = [] := List.drop_eq_nil_of_le hge
+        cases r with
+        | none => simp [remB, hdrop]
+        | some q =>
+          have hqi : q ≠ i := fun e => hr (by rw [e])
+          have h1 : ¬ (i ≤ q ∧ q ≤ vals.length) := by omega
+          simp [remB, h1, hdrop]
+  | load c st rest =>
+    cases st with
+    | dead => exact absurd rfl ok
+    | fresh =>
+      cases hf : (fs c).final with
+      | none =>
+        simp only [nextBottom, hf] at h
+        obtain ⟨rfl, rfl, rfl⟩ := h
+        simp [remB, storedFlow, hf]
+      | some xs =>
+        cases xs with
+        | nil =>
+          simp only [nextBottom, hf] at h
+          obtain ⟨rfl, rfl, rfl⟩ := h
+          simp [remB, storedFlow, hf]
+        | cons v xs =>
+          simp only [nextBottom, hf] at h
+          obtain ⟨rfl, rfl, rfl⟩ := h
+          simp [remB, storedFlow, hf, BotOk]
+    | active =>
+      cases rest with
+      | nil =>
+        simp only [nextBottom] at h
+        obtain ⟨rfl, rfl, rfl⟩ := h
+        simp [remB]
+      | cons v xs =>
+        simp only [nextBottom] at h
+        obtain ⟨rfl, rfl, rfl⟩ := h
+        simp [remB, BotOk]
+
+theorem Flow.eta (F : Flow) : (⟨F.vals, F.exc⟩ : Flow) = F := rfl
+
+theorem Flow.ext' {F G : Flow} (h1 : F.vals = G.vals) (h2 : F.exc = G.exc) : F = G := by
+  cases F; cases G; simp_all
+
+@[simp] theorem mapFlow_nil (a : Int) (r : Option Nat) (e : Option Exc) : mapFlow a r ⟨[], e⟩ = ⟨[], e⟩ := by
+  cases r <;> simp [mapFlow]
+
+theorem mapFlow_raise_now (a : Int) (v : Val) (rest : List Val) (e : Option Exc) :
+    mapFlow a (some 0) ⟨v :: rest, e⟩ = ⟨[], some .elBoom⟩ := by
+  simp [mapFlow]
+
+theorem shiftRaise_self (calls : Nat) : shiftRaise calls (some calls) = some 0 := by
+  simp [shiftRaise]
+
+/-- a map generator that does not raise on this value: its remaining flow loses its head -/
+theorem mapFlow_step (a : Int) (calls : Nat) (r : Option Nat) (hr : r ≠ some calls) (v : Val) (rest : List Val)
+    (e : Option Exc) :
+    mapFlow a (shiftRaise calls r) ⟨v :: rest, e⟩ =
+      ⟨(10 * v + a) :: (mapFlow a (shiftRaise (calls + 1) r) ⟨rest, e⟩).vals,
+        (mapFlow a (shiftRaise (calls + 1) r) ⟨rest, e⟩).exc⟩ := by
+  cases r with
+  | none => simp [shiftRaise, mapFlow]
+  | some q =>
+    have hq : q ≠ calls := fun h => hr (by rw [h])
+    by_cases h1 : calls ≤ q
+    · have h2 : calls + 1 ≤ q := by omega
+      have h3 : q - calls = (q - (calls + 1)) + 1 := by omega
+      simp only [shiftRaise, h1, h2, if_true, mapFlow, h3, List.length_cons, Nat.add_lt_add_iff_right]
+      split <;> simp [List.take_succ_cons]
+    · have h2 : ¬ calls + 1 ≤ q := by omega
+      simp [shiftRaise, h1, h2, mapFlow]
+
+/-- the one-step simulation statement: `next` on a healthy chain produces the head of the remaining flow
+(or its end), keeps the chain healthy, never touches a cache file before the end, and commits exactly the
+tracked flows at the normal end -/
+def StepSpec (fs : FS) (us : List Upper) (b : Bottom) : Prop :=
+  ∀ res evs fs' us' b', nextUppers fs us b = (res, evs, fs', us', b') →
+    (∀ c, c ∉ dumpIds us → fs' c = fs c) ∧
+    dumpIds us' = dumpIds us ∧
+    (∀ v rest, (remUs us (remB fs b)).vals = v :: rest →
+        res = .item v ∧ UsOk fs' us' ∧ BotOk b' ∧
+        remUs us' (remB fs' b') = ⟨rest, (remUs us (remB fs b)).exc⟩ ∧
+        (∀ c, (fs' c).final = (fs c).final) ∧
+        (∀ c T, Track c T fs (remB fs b) us → Track c T fs' (remB fs' b') us')) ∧
+    ((remUs us (remB fs b)).vals = [] → (remUs us (remB fs b)).exc = none →
+        res = .done ∧ (∀ c T, c ∈ dumpIds us → Track c T fs (remB fs b) us → fs' c = ⟨some T, none⟩)) ∧
+    (∀ e, (remUs us (remB fs b)).vals = [] → (remUs us (remB fs b)).exc = some e →
+        res = .raised e ∧ (∀ c, (fs' c).final = (fs c).final))
+
+theorem step_nil (fs : FS) (b : Bottom) (okb : BotOk b) : StepSpec fs [] b := by
+  intro res evs fs' us' b' h
+  rcases hb : nextBottom fs b with ⟨r0, evs0, b0⟩
+  simp only [nextUppers, hb] at h
+  obtain ⟨rfl, rfl, rfl, rfl, rfl⟩ := h
+  obtain ⟨h1, h2, h3⟩ := nextBottom_spec fs b okb _ _ _ hb
+  refine ⟨fun _ _ => rfl, rfl, ?_, ?_, ?_⟩
+  · intro v rest hv
+    obtain ⟨e1, e2, e3⟩ := h1 v rest hv
+    exact ⟨e1, trivial, e2, e3 _, fun _ => rfl, fun _ _ _ => trivial⟩
+  · intro hv he
+    exact ⟨h2 hv he, fun c T hc => by simp [dumpIds] at hc⟩
+  · intro e hv he
+    exact ⟨h3 e hv he, fun _ => rfl⟩
+
+theorem step_map (fs : FS) (j : Nat) (a : Int) (calls : Nat) (r : Option Nat) (us : List Upper) (b : Bottom)
+    (ih : StepSpec fs us b) : StepSpec fs (.map j a calls r false :: us) b := by
+  intro res evs fs' us' b' h
+  rcases hn : nextUppers fs us b with ⟨res0, evs0, fs0, us0, b0⟩
+  simp only [nextUppers, hn] at h
+  obtain ⟨f1, f2, hi, hd, hr⟩ := ih _ _ _ _ _ hn
+  simp only [remUs_cons, remU]
+  rcases hF : remUs us (remB fs b) with ⟨xs, e⟩
+  rw [hF] at hi hd hr
+  cases xs with
+  | nil =>
+    simp only [mapFlow_nil]
+    cases e with
+    | none =>
+      obtain ⟨rfl, hcommit⟩ := hd rfl rfl
+      simp only [mapAfter] at h
+      obtain ⟨rfl, rfl, rfl, rfl, rfl⟩ := h
+      refine ⟨f1, by simpa [dumpIds] using f2, ?_, ?_, ?_⟩
+      · intro v rest hv; simp at hv
+      · intro _ _
+        exact ⟨rfl, fun c T hc ht => hcommit c T (by simpa [dumpIds] using hc) (by simpa [Track] using ht)⟩
+      · intro e _ he; simp at he
+    | some e =>
+      obtain ⟨rfl, hfin⟩ := hr e rfl rfl
+      simp only [mapAfter] at h
+      obtain ⟨rfl, rfl, rfl, rfl, rfl⟩ := h
+      refine ⟨f1, by simpa [dumpIds] using f2, ?_, ?_, ?_⟩
+      · intro v rest hv; simp at hv
+      · intro _ he; simp at he
+      · intro e' _ he
+        simp at he
+        subst he
+        exact ⟨rfl, hfin⟩
+  | cons v rest =>
+    obtain ⟨rfl, ok', okb', hrem, hfin, htr⟩ := hi v rest rfl
+    by_cases hrc : r = some calls
+    · simp only [mapAfter, hrc, if_true] at h
+      obtain ⟨rfl, rfl, rfl, rfl, rfl⟩ := h
+      subst hrc
+      rw [shiftRaise_self, mapFlow_raise_now]
+      refine ⟨f1, by simpa [dumpIds] using f2, ?_, ?_, ?_⟩
+      · intro v rest hv; simp at hv
+      · intro _ he; simp at he
+      · intro e' _ he
+        simp at he
+        subst he
+        exact ⟨rfl, hfin⟩
+    · simp only [mapAfter, hrc, if_false] at h
+      obtain ⟨rfl, rfl, rfl, rfl, rfl⟩ := h
+      rw [mapFlow_step a calls r hrc]
+      refine ⟨f1, by simpa [dumpIds] using f2, ?_, ?_, ?_⟩
+      · intro v' rest' hv
+        simp only [List.cons.injEq] at hv
+        obtain ⟨rfl, rfl⟩ := hv
+        refine ⟨rfl, ⟨rfl, ok'⟩, okb', ?_, hfin, ?_⟩
+        · simp only [remUs_cons, remU, hrem]
+        · intro c T ht
+          simpa [Track] using htr c T (by simpa [Track] using ht)
+      · intro hv; simp at hv
+      · intro e' hv; simp at hv
+
+theorem step_dump (fs fs1 : FS) (c : Nat) (st : GenSt) (us : List Upper) (b : Bottom) (pre1 : List Val)
+    (hc : c ∉ dumpIds us)
+    (hfin1 : ∀ d, (fs1 d).final = (fs d).final) (hoth : ∀ d, d ≠ c → fs1 d = fs d)
+    (htmp : (fs1 c).tmp = some pre1)
+    (htr1 : ∀ T, Track c T fs (remB fs b) (.dump c st :: us) → pre1 ++ (remUs us (remB fs b)).vals = T)
+    (hst : st ≠ .dead)
+    (ih : StepSpec fs1 us b) :
+    ∀ res evs fs' us' b', dumpAfter c (nextUppers fs1 us b) = (res, evs, fs', us', b') →
+      (∀ d, d ∉ dumpIds (.dump c st :: us) → fs' d = fs d) ∧
+      dumpIds us' = dumpIds (.dump c st :: us) ∧
+      (∀ v rest, (remUs (.dump c st :: us) (remB fs b)).vals = v :: rest →
+          res = .item v ∧ UsOk fs' us' ∧ BotOk b' ∧
+          remUs us' (remB fs' b') = ⟨rest, (remUs (.dump c st :: us) (remB fs b)).exc⟩ ∧
+          (∀ d, (fs' d).final = (fs d).final) ∧
+          (∀ d T, Track d T fs (remB fs b) (.dump c st :: us) → Track d T fs' (remB fs' b') us')) ∧
+      ((remUs (.dump c st :: us) (remB fs b)).vals = [] → (remUs (.dump c st :: us) (remB fs b)).exc = none →
+          res = .done ∧ (∀ d T, d ∈ dumpIds (.dump c st :: us) → Track d T fs (remB fs b) (.dump c st :: us) →
+            fs' d = ⟨some T, none⟩)) ∧
+      (∀ e, (remUs (.dump c st :: us) (remB fs b)).vals = [] → (remUs (.dump c st :: us) (remB fs b)).exc = some e →
+          res = .raised e ∧ (∀ d, (fs' d).final = (fs d).final)) := by
+  intro res evs fs' us' b' h
+  have hB : remB fs1 b = remB fs b := remB_congr hfin1 b
+  have hrem : remUs (.dump c st :: us) (remB fs b) = remUs us (remB fs b) := by
+    cases st with
+    | dead => exact absurd rfl hst
+    | fresh => rfl
+    | active => rfl
+  rw [hrem]
+  rcases hn : nextUppers fs1 us b with ⟨res0, evs0, fs0, us0, b0⟩
+  rw [hn] at h
+  obtain ⟨f1, f2, hi, hd, hr⟩ := ih _ _ _ _ _ hn
+  rw [hB] at hi hd hr
+  have hfs0c : fs0 c = fs1 c := f1 c hc
+  -- transfer of tracking from fs to fs1 for the other caches
+  have trans1 : ∀ d T, d ≠ c → Track d T fs (remB fs b) us → Track d T fs1 (remB fs b) us := by
+    intro d T hdc ht
+    exact Track_congr us (fun _ => by rw [hoth d hdc]) ht
+  have tail : ∀ d T, d ≠ c → Track d T fs (remB fs b) (.dump c st :: us) → Track d T fs (remB fs b) us := by
+    intro d T hdc ht
+    unfold Track at ht
+    simpa [Ne.symm hdc] using ht
+  rcases hF : remUs us (remB fs b) with ⟨xs, e⟩
+  rw [hF] at hi hd hr htr1
+  cases xs with
+  | cons v rest =>
+    obtain ⟨rfl, ok', okb', hrem', hfin, htr⟩ := hi v rest rfl
+    simp only [dumpAfter] at h
+    obtain ⟨rfl, rfl, rfl, rfl, rfl⟩ := h
+    have hfinw : ∀ d, ((fs0.writeTmp c v) d).final = (fs0 d).final := by
+      intro d; by_cases hdc : d = c <;> simp [hdc]
+    have hBw : ∀ bb, remB (fs0.writeTmp c v) bb = remB fs0 bb := remB_congr hfinw
+    refine ⟨?_, by simp [dumpIds, f2], ?_, ?_, ?_⟩
+    · intro d hd'
+      have hdc : d ≠ c := fun e => hd' (by simp [dumpIds, e])
+      have hdu : d ∉ dumpIds us := fun e => hd' (by simp [dumpIds, e])
+      simp [hdc, f1 d hdu, hoth d hdc]
+    · intro v' rest' hv
+      simp only [List.cons.injEq] at hv
+      obtain ⟨rfl, rfl⟩ := hv
+      refine ⟨rfl, ?_, okb', ?_, ?_, ?_⟩
+      · refine ⟨by simp, by rw [f2]; exact hc, ?_, ?_⟩
+        · intro _
+          simp [hfs0c, htmp]
+        · exact UsOk_congr us0 (fun d hd' => by
+            have : d ≠ c := fun e => hc (by rw [← f2, ← e]; exact hd')
+            simp [this]) ok'
+      · simp only [remUs_cons, remU, hBw, hrem']
+      · intro d; rw [hfinw, hfin, hfin1]
+      · intro d T ht
+        unfold Track
+        by_cases hdc : c = d
+        · subst hdc
+          simp only [if_true]
+          refine ⟨pre1 ++ [v], by simp [hfs0c, htmp], ?_⟩
+          rw [hBw, hrem']
+          simpa using htr1 T ht
+        · simp only [hdc, if_false]
+          have := htr d T (trans1 d T (Ne.symm hdc) (tail d T (Ne.symm hdc) ht))
+          rw [hBw]
+          exact Track_congr us0 (fun _ => by simp [Ne.symm hdc]) this
+    · intro hv; simp at hv
+    · intro e' hv; simp at hv
+  | nil =>
+    cases e with
+    | none =>
+      obtain ⟨rfl, hcommit⟩ := hd rfl rfl
+      have hrep : fs0.replaceTmp c = some (fs0.set c ⟨some pre1, none⟩) :=
+        FS.replaceTmp_some (by rw [hfs0c, htmp])
+      simp only [dumpAfter, hrep] at h
+      obtain ⟨rfl, rfl, rfl, rfl, rfl⟩ := h
+      refine ⟨?_, by simp [dumpIds, f2], ?_, ?_, ?_⟩
+      · intro d hd'
+        have hdc : d ≠ c := fun e => hd' (by simp [dumpIds, e])
+        have hdu : d ∉ dumpIds us := fun e => hd' (by simp [dumpIds, e])
+        simp [hdc, f1 d hdu, hoth d hdc]
+      · intro v rest hv; simp at hv
+      · intro _ _
+        refine ⟨rfl, ?_⟩
+        intro d T hd' ht
+        by_cases hdc : d = c
+        · subst hdc
+          have := htr1 T ht
+          simp at this
+          simp [this]
+        · have hdu : d ∈ dumpIds us := by simpa [dumpIds, hdc] using hd'
+          have := hcommit d T hdu (trans1 d T hdc (tail d T hdc ht))
+          simp [hdc, this]
+      · intro e' _ he; simp at he
+    | some e =>
+      obtain ⟨rfl, hfin⟩ := hr e rfl rfl
+      simp only [dumpAfter] at h
+      obtain ⟨rfl, rfl, rfl, rfl, rfl⟩ := h
+      refine ⟨?_, by simp [dumpIds, f2], ?_, ?_, ?_⟩
+      · intro d hd'
+        have hdc : d ≠ c := fun e => hd' (by simp [dumpIds, e])
+        have hdu : d ∉ dumpIds us := fun e => hd' (by simp [dumpIds, e])
+        simp [hdc, f1 d hdu, hoth d hdc]
+      · intro v rest hv; simp at hv
+      · intro _ he; simp at he
+      · intro e' _ he
+        simp at he
+        subst he
+        refine ⟨rfl, ?_⟩
+        intro d
+        by_cases hdc : d = c
+        · subst hdc; simp [hfin, hfin1]
+        · simp [hdc, hfin, hfin1]
+
+/-- **one-step simulation**: on a healthy chain `next` refines the remaining flow -/
+theorem nextUppers_spec : ∀ (us : List Upper) (fs : FS) (b : Bottom), UsOk fs us → BotOk b → StepSpec fs us b
+  | [], fs, b, _, okb => step_nil fs b okb
+  | .map j a calls r dead :: us, fs, b, ok, okb => by
+    obtain ⟨rfl, ok'⟩ := ok
+    exact step_map fs j a calls r us b (nextUppers_spec us fs b ok' okb)
+  | .dump c .dead :: us, fs, b, ok, _ => absurd rfl ok.1
+  | .dump c .fresh :: us, fs, b, ok, okb => by
+    obtain ⟨_, hc, _, ok'⟩ := ok
+    have ok1 : UsOk (fs.openTmpW c) us := UsOk_congr us (fun d hd => by
+      have : d ≠ c := fun e => hc (e ▸ hd)
+      simp [this]) ok'
+    intro res evs fs' us' b' h
+    simp only [nextUppers] at h
+    refine step_dump fs (fs.openTmpW c) c .fresh us b [] hc ?_ ?_ ?_ ?_ (by simp)
+      (nextUppers_spec us _ b ok1 okb) res evs fs' us' b' h
+    · intro d; by_cases hdc : d = c <;> simp [hdc]
+    · intro d hdc; simp [hdc]
+    · simp
+    · intro T ht
+      unfold Track at ht
+      simpa using ht
+  | .dump c .active :: us, fs, b, ok, okb => by
+    obtain ⟨_, hc, htmp, ok'⟩ := ok
+    obtain ⟨pre, hpre⟩ := Option.isSome_iff_exists.mp (htmp rfl)
+    intro res evs fs' us' b' h
+    simp only [nextUppers] at h
+    refine step_dump fs fs c .active us b pre hc (fun _ => rfl) (fun _ _ => rfl) hpre ?_ (by simp)
+      (nextUppers_spec us _ b ok' okb) res evs fs' us' b' h
+    intro T ht
+    unfold Track at ht
+    simp only [if_true] at ht
+    obtain ⟨pre', h1, h2⟩ := ht
+    rw [hpre] at h1
+    cases h1
+    exact h2
+
+end Lena.C18
